@@ -27,18 +27,18 @@ type gthread struct {
 }
 
 type scheduler struct {
-	threads  []*gthread
-	cur      *gthread
-	explore  bool // schedule choices are decisions
-	dead     bool
-	pending  interface{} // panic payload to deliver to the main goroutine
-	highFirst bool
+	threads      []*gthread
+	cur          *gthread
+	explore      bool // schedule choices are decisions
+	dead         bool
+	pending      interface{} // panic payload to deliver to the main goroutine
+	highFirst    bool
 	preemptBound int
-	preemptions int
-	nextChanID int
-	yields int
+	preemptions  int
+	nextChanID   int
+	yields       int
 	yieldAtLocks bool  // mutex operations are scheduling points (explore mode)
-	log    []int       // chosen thread id at every scheduling point (explore mode), for native replay
+	log          []int // chosen thread id at every scheduling point (explore mode), for native replay
 }
 
 var S *scheduler
@@ -299,13 +299,13 @@ type sendItem struct {
 }
 
 type channel struct {
-	id     int
-	cap    int
-	buf    []sendItem
-	sendq  []*sendItem // unbuffered rendezvous
-	closed bool
+	id          int
+	cap         int
+	buf         []sendItem
+	sendq       []*sendItem // unbuffered rendezvous
+	closed      bool
 	recvWaiting int
-	closeVC vclock
+	closeVC     vclock
 }
 
 func newChannel(cap int) *channel {
